@@ -60,7 +60,7 @@ type Op[T Elem] struct {
 	Red    string           // reductions: which exact value is approximated
 	Prefix string           // "sum" or "prod": running reduction (CumSum, CumProd), see checkPrefix
 	Approx bool             // axpy-shaped kernel compared with a rounding bound instead of bit-for-bit, see checkApproxAxpy
-	// GuardN1 places the operands of every n == 1 call against guard pages. Set
+	// GuardN1 places x of every n == 1 call against a guard page. Set
 	// for a kernel with a known runaway loop at n == 1 (c64.AxpyUnitaryTo): the
 	// first out-of-bounds read then faults before anything is overwritten, the
 	// fault is reported as <fn>/runtime-fault and the process stays usable.
@@ -82,9 +82,12 @@ type Case struct {
 	Alpha, AlphaIm   vk.F
 	Class            int
 	Alias            int // 0 none, 1 dst is x, 2 dst is y
-	Guard            int // 0 none, 1 operands end at a guard page, 2 start at one
+	Guard            int // guard-page placement, see guardOf
 	Trim             bool
 	Seed             uint64
+	// X, Y optionally give the lanes of the addressed elements of x and y
+	// explicitly (witness files); otherwise they are expanded from Seed.
+	X, Y []vk.F `json:",omitempty"`
 }
 
 func absInt(a int) int {
@@ -145,12 +148,13 @@ func CheckVec[T Elem](pkg string, ops map[string]*Op[T]) func(Case) *vk.Failure 
 			gd, offD = gy, offY
 		}
 		guard := c.Guard
-		if guard < 0 || guard > 2 {
+		if guard < 0 || guard >= len(guardModes) {
 			guard = 0
 		}
-		if op.GuardN1 && n == 1 && guard == 0 {
-			guard = GuardEnd
+		if op.GuardN1 && n == 1 && guardModes[guard][0] != GuardEnd {
+			guard = 3 // x ends at a guard page: the first out-of-bounds access of the runaway loop is a read of x[1]
 		}
+		gdX, gdY, gdD := guardOf(guard)
 
 		vk.Class(fmt.Sprintf("%s.%s class=%s", pkg, op.Name, ClassName(c.Class)))
 		if guard != 0 {
@@ -179,14 +183,16 @@ func CheckVec[T Elem](pkg string, ops map[string]*Op[T]) func(Case) *vk.Failure 
 			}
 		}()
 		if sh.HasX {
-			vx = NewVec[T](gx.Len, offX, guard, 1, c.Trim)
+			vx = NewVec[T](gx.Len, offX, gdX, 1, c.Trim)
 			vecs = append(vecs, vx)
 			fillData(vx, gx, gen)
+			overrideData(vx, gx, c.X)
 		}
 		if sh.HasY {
-			vy = NewVec[T](gy.Len, offY, guard, 2, c.Trim)
+			vy = NewVec[T](gy.Len, offY, gdY, 2, c.Trim)
 			vecs = append(vecs, vy)
 			fillData(vy, gy, gen)
+			overrideData(vy, gy, c.Y)
 		}
 		if sh.HasDst {
 			switch alias {
@@ -195,7 +201,7 @@ func CheckVec[T Elem](pkg string, ops map[string]*Op[T]) func(Case) *vk.Failure 
 			case 2:
 				vd = vy
 			default:
-				vd = NewVec[T](gd.Len, offD, guard, 3, c.Trim)
+				vd = NewVec[T](gd.Len, offD, gdD, 3, c.Trim)
 				vecs = append(vecs, vd)
 			}
 		}
@@ -358,7 +364,11 @@ func enumCases[T Elem](op *Op[T], maxN int) []Case {
 				c.AlphaIm = vk.F(float32(c.AlphaIm))
 			}
 		}
-		c.Guard = int(cnt % 3)
+		// about 40% of the grid uses guard pages; the choice is decorrelated
+		// from the offset loops so that every (n, alignment) meets every placement
+		if g := int(r.Uint64() % 20); g < len(guardModes) {
+			c.Guard = g
+		}
 		c.Trim = cnt%2 == 0
 		out = append(out, c)
 	}
@@ -393,7 +403,8 @@ func enumCases[T Elem](op *Op[T], maxN int) []Case {
 				}
 			}
 			for ti, tp := range tuples {
-				for ox := 0; ox < 8; ox++ {
+				// two start offsets per (n, increment tuple), rotating through 0..7
+				for _, ox := range [2]int{(ti + n) % 8, (ti + n + 3) % 8} {
 					for _, al := range aliases {
 						c := Case{N: n, OffX: ox, OffY: (ox*3 + 1 + ti) % 8, OffD: (ox*5 + 2 + ti) % 8,
 							IncX: tp[0], IncY: tp[1], IncD: 1 + (ti+ox)%5, Class: cls, Alias: al,
@@ -416,7 +427,7 @@ func drawCase[T Elem](op *Op[T]) func(t *rapid.T) Case {
 	sh := op.Shape
 	return func(t *rapid.T) Case {
 		c := Case{Fn: op.Name}
-		c.N = vk.Dim(t, "n", 0, 10000, 2, 4, 8, 16, 32, 64, 128, 256, 1024)
+		c.N = drawLen(t)
 		c.Class = rapid.SampledFrom(op.Classes).Draw(t, "class")
 		c.OffX = rapid.IntRange(0, 15).Draw(t, "offx")
 		if sh.HasY {
@@ -465,11 +476,49 @@ func drawCase[T Elem](op *Op[T]) func(t *rapid.T) Case {
 				c.AlphaIm = vk.F(drawScalar(t, "alphaim", k.W32, c.Class))
 			}
 		}
-		c.Guard = rapid.SampledFrom([]int{0, 0, 1, 2}).Draw(t, "guard")
+		if rapid.IntRange(0, 2).Draw(t, "guarded") == 0 {
+			c.Guard = rapid.IntRange(1, len(guardModes)-1).Draw(t, "guard")
+		}
 		c.Trim = rapid.Bool().Draw(t, "trim")
 		c.Seed = rapid.Uint64().Draw(t, "seed")
 		return c
 	}
+}
+
+// guardModes lists the guard-page placements of the operands (x, y, dst).
+// Guarding one operand at a time matters: when all operands end at a page
+// boundary their alignments are correlated (all are -n*size mod 16) and an
+// alignment peel driven by one operand hides the tail loop from the others.
+var guardModes = [][3]int{
+	{GuardNone, GuardNone, GuardNone},
+	{GuardEnd, GuardEnd, GuardEnd},
+	{GuardStart, GuardStart, GuardStart},
+	{GuardEnd, GuardNone, GuardNone},
+	{GuardNone, GuardEnd, GuardNone},
+	{GuardNone, GuardNone, GuardEnd},
+	{GuardStart, GuardNone, GuardNone},
+	{GuardNone, GuardStart, GuardNone},
+	{GuardEnd, GuardStart, GuardNone},
+}
+
+func guardOf(mode int) (x, y, d int) {
+	m := guardModes[mode]
+	return m[0], m[1], m[2]
+}
+
+// drawLen draws a length up to 10^4: tiny values, the neighbours of the unroll
+// and block boundaries, the range up to 300, and (one in ten) the full range.
+func drawLen(t *rapid.T) int {
+	switch k := rapid.IntRange(0, 19).Draw(t, "n_mix"); {
+	case k < 4:
+		return rapid.IntRange(0, 3).Draw(t, "n_tiny")
+	case k < 11:
+		b := rapid.SampledFrom([]int{2, 4, 8, 16, 32, 64, 128, 256, 1024, 4096}).Draw(t, "n_bnd")
+		return b + rapid.IntRange(-1, 1).Draw(t, "n_off")
+	case k < 18:
+		return rapid.IntRange(0, 300).Draw(t, "n")
+	}
+	return rapid.IntRange(0, 10000).Draw(t, "n_big")
 }
 
 func drawScalar(t *rapid.T, label string, w32 bool, cls int) float64 {
